@@ -55,7 +55,7 @@ class C11(Prop):
         res = [r for r in results if r[0] == "snappath"]
         ol = [o for o in ops if o[0] == "snappath"]
         if not (len(raws) == len(res) == len(ol)):
-            return []
+            return self.skip("guard")
         for raw, (_, idx, o), (n, kv) in zip(raws, res, ol):
             if raw.get("sort"):
                 continue  # -trimpath variant: tied by the model only
